@@ -279,3 +279,49 @@ Proof.
   destruct (unify_mgu (sden rho t) (sden rho t) W St eq_refl) as [n [s' [U [W' [X [_ S]]]]]].
   exists n, s'. auto.
 Qed.
+
+(* ------------------------------------------------------------------ executable entry point for the harness (C16):
+   the Python values that the SPECIFICATION lit_py prescribes for the literals of a source text, computed from the text
+   by the model front end.  The harness compares them with what to_python returns for the compiled program. *)
+From YP Require Import Lang.Front.
+
+Fixpoint pyval_obs (v : pyval) : obs :=
+  match v with
+  | PStr x => otag "s" [OS x]
+  | PInt z => otag "i" [OZ z]
+  | PNone => otag "none" []
+  | PList l => otag "l" [OL (map pyval_obs l)]
+  | PPair f args => otag "t" [OS f; OL (map pyval_obs args)]
+  end.
+Definition opt_py_obs (o : option pyval) : obs :=
+  match o with Some v => pyval_obs v | None => otag "unspecified" [] end.
+
+Fixpoint env_find (v : str) (env : list (str * sterm)) : option sterm :=
+  match env with [] => None | (x, t) :: r => if str_eqb v x then Some t else env_find v r end.
+(* variables bound to ground literals: their Python value is the value of that literal; all others are unbound *)
+Definition env_pv (env : list (str * sterm)) (v : str) : pyval :=
+  match env_find v env with
+  | Some t => match lit_py (fun _ => PNone) t with Some x => x | None => PNone end
+  | None => PNone
+  end.
+
+Definition is_fact_clause (c : clause) : bool := is_prefix (s_ "fact") (c_name c).
+
+Fixpoint lits_obs (cs : list clause) (envs : list (list (str * sterm))) : list obs :=
+  match cs, envs with
+  | c :: cr, env :: er =>
+      match c_args c with
+      | t :: _ => OL [opt_py_obs (lit_py (fun _ => PNone) t); opt_py_obs (lit_py (env_pv env) t)]
+      | [] => otag "no-argument" []
+      end :: lits_obs cr er
+  | _, _ => []
+  end.
+
+(* for the i-th clause named fact<i>: [value with all variables unbound; value with the variables bound as in envs[i]] *)
+Definition run_lits (s : str) (envs : list (list (str * sterm))) : obs :=
+  match front s with
+  | Some prog => otag "ok" [OL (lits_obs (filter is_fact_clause prog) envs)]
+  | None => otag "none" []
+  end.
+
+Definition run_c16 (s : str) (envs : list (list (str * sterm))) : obs := OL [run_front s; run_lits s envs].
